@@ -207,6 +207,13 @@ func (t *tr) expr(e ast.Expr) *N {
 		}
 		return s.C("Values", t.exprs(e.Elts))
 	case *ast.ParenExpr:
+		if c, ok := complexLit(e); ok && t.o.Alt != nil && t.o.Alt.Choose(2) == 1 {
+			// (re + imi), spelled the way strconv spells the two parts: the documented element is Lit(complex128)
+			if t.o.Stats != nil {
+				t.o.Stats.AltIdent++
+			}
+			return recipe.Lit(c)
+		}
 		return S().C("Parens", t.expr(e.X))
 	case *ast.SelectorExpr:
 		if id, ok := e.X.(*ast.Ident); ok && id.Obj == nil {
@@ -420,6 +427,33 @@ func ambiguousConstraint(x ast.Expr) bool {
 		return true
 	}
 	return false
+}
+
+// complexLit recognises a parenthesised sum or difference of a non-negative real literal and an imaginary
+// literal whose spellings are the shortest decimal texts of float64 values: what Lit(complex128) renders.
+func complexLit(p *ast.ParenExpr) (complex128, bool) {
+	b, ok := p.X.(*ast.BinaryExpr)
+	if !ok || (b.Op != token.ADD && b.Op != token.SUB) {
+		return 0, false
+	}
+	re, ok1 := b.X.(*ast.BasicLit)
+	im, ok2 := b.Y.(*ast.BasicLit)
+	if !ok1 || !ok2 || (re.Kind != token.INT && re.Kind != token.FLOAT) || im.Kind != token.IMAG {
+		return 0, false
+	}
+	r, err1 := strconv.ParseFloat(re.Value, 64)
+	i, err2 := strconv.ParseFloat(strings.TrimSuffix(im.Value, "i"), 64)
+	if err1 != nil || err2 != nil || math.IsInf(r, 0) || math.IsInf(i, 0) {
+		return 0, false
+	}
+	// fmt prints the parts of a complex128 with %g; only texts that fmt would print itself come back unchanged
+	if fmt.Sprintf("%g", r) != re.Value || fmt.Sprintf("%g", i)+"i" != im.Value || i == 0 {
+		return 0, false
+	}
+	if b.Op == token.SUB {
+		i = -i
+	}
+	return complex(r, i), true
 }
 
 func (t *tr) tag(b *ast.BasicLit) *N {
